@@ -4,7 +4,6 @@ from pyvc.bounded import Harness, Failure
 from spec import pddl_sem as PS, gen as G, repo_api as RA, sexp as SX, views as V
 from contracts.c18 import rename
 
-CONTRACTS = {}
 LEVEL = "other"
 EXPLANATION = ("bounded stand-in: for generated actions (parameters ?x - a, ?y - b so that literals are used at subtypes of their declared types) "
                "and every type-correct argument tuple incl. repeated objects and the constant k, the grounded precondition tree, the grounded "
@@ -129,3 +128,34 @@ class Grounding(Harness):
 
 
 HARNESSES = [Grounding()]
+
+# ---- deductive: Operator.ground builds the positional substitution and hands the SAME map to both grounding steps ----------------
+OPG = "models.pddl_operator:Operator."
+GPG = "models.grounded_precondition:GroundedPrecondition."
+_PM = "call_arg('GroundedPrecondition.ground_preconditions', 'parameters_map')"
+CONTRACTS = {
+    GPG + "ground_preconditions": dict(prop="C20", assumed=True, params={"self": ("ref", "GroundedPrecondition"), "parameters_map": ("ref", "dict_str_str")},
+                                       returns="none", ensures=[], raises={"KeyError": "True"},
+                                       modifies=["CompoundPrecondition.root[self._grounded_precondition]"]),
+    OPG + "_ground_conditional_effects": dict(prop="C20", assumed=True, params={"self": ("ref", "Operator"), "parameters_map": ("ref", "dict_str_str")},
+                                              returns=("ref", "opaque"), ensures=["fresh(result)"], raises={"KeyError": "True"}, modifies=[]),
+    OPG + "ground": dict(
+        prop="C20", params={"self": ("ref", "Operator")}, returns="none", locals={"parameters_map": ("ref", "dict_str_str")},
+        requires=["allocated(self.action)", "allocated(self.action.signature)", "allocated(self.grounded_call_objects)", "allocated(self.action.preconditions)",
+                  # representation invariant of a signature: parameter names are pairwise distinct
+                  "forall_int(lambda i: forall_int(lambda j: implies(i != j, self.action.signature.keys()[i] != self.action.signature.keys()[j]), 0, "
+                  "len(self.action.signature.keys())), 0, len(self.action.signature.keys()))"],
+        ensures=[
+            # the substitution is zip(parameters of the action, call objects), position by position
+            f"forall_int(lambda i: {_PM}.keys()[i] == self.action.signature.keys()[i] and {_PM}[{_PM}.keys()[i]] == seq(self.grounded_call_objects)[i], 0, len({_PM}.keys()))",
+            f"len({_PM}.keys()) == (len(self.action.signature.keys()) if len(self.action.signature.keys()) <= len(self.grounded_call_objects) else len(self.grounded_call_objects))",
+            # preconditions and effects are grounded with the same map, on the operator's own action and domain
+            f"{_PM} == call_arg('Operator._ground_conditional_effects', 'parameters_map')",
+            "self.grounded", "fresh(self.grounded_preconditions)", "self.grounded_preconditions.action == self.action",
+            "self.grounded_preconditions.domain == self.domain", "self.grounded_preconditions._lifted_precondition == self.action.preconditions",
+            # the schema is not written
+            "self.action == old(self.action)", "self.action.signature.keys() == old(self.action.signature.keys())"],
+        raises={"KeyError": "True"},
+        modifies=["Operator.grounded_preconditions[self]", "Operator.grounded_effects[self]", "Operator.grounded[self]"],
+        calls={"GroundedPrecondition.ground_preconditions": GPG + "ground_preconditions", "self._ground_conditional_effects": OPG + "_ground_conditional_effects"}),
+}
